@@ -1,13 +1,19 @@
 package main
 
 import (
+	"context"
+	"encoding/hex"
+	"encoding/json"
+	"errors"
 	"fmt"
 	"io"
 	"os"
+	"path"
 	"path/filepath"
 	"sort"
 	"strconv"
 	"strings"
+	"sync"
 	"sync/atomic"
 	"time"
 
@@ -17,6 +23,10 @@ import (
 )
 
 func init() { register("c16", checkC16) }
+
+// ---------------------------------------------------------------------------------------------
+// entries: names and attributes are functions of (style, index) so that a replay rebuilds them
+// ---------------------------------------------------------------------------------------------
 
 type c16Info struct {
 	name string
@@ -36,12 +46,154 @@ func (f c16Info) ModTime() time.Time { return time.Unix(1_000_000_000+int64(f.id
 func (f c16Info) IsDir() bool        { return f.dir }
 func (f c16Info) Sys() any           { return nil }
 
+// c16InfoUG additionally implements sftp.FileInfoUidGid, c16InfoExt sftp.FileInfoExtendedData.
+type c16InfoUG struct{ c16Info }
+
+func (f c16InfoUG) Uid() uint32 { return uint32(1000 + f.idx) }
+func (f c16InfoUG) Gid() uint32 { return uint32(2000 + 3*f.idx) }
+
+type c16InfoExt struct{ c16InfoUG }
+
+func (f c16InfoExt) Extended() []sftp.StatExtended { return c16Ext(f.idx) }
+
+// c16Ext: no extended block / one pair / two pairs (with NUL and non-UTF-8 data), mixed inside one reply.
+func c16Ext(i int) []sftp.StatExtended {
+	switch i % 3 {
+	case 0:
+		return nil
+	case 1:
+		return []sftp.StatExtended{{ExtType: fmt.Sprintf("t%d@vh", i), ExtData: strings.Repeat("v", i%7)}}
+	}
+	return []sftp.StatExtended{{ExtType: fmt.Sprintf("t%d@vh", i), ExtData: strings.Repeat("v", i%7)},
+		{ExtType: "second@vh", ExtData: fmt.Sprintf("%d\x00\xff", i)}}
+}
+
+// c16AttrKind: which optional attribute interfaces entry i implements under the style.
+func c16AttrKind(style string, i int) string {
+	switch style {
+	case "ug", "lookup":
+		return "ug"
+	case "ext":
+		return "ext"
+	case "mix":
+		return []string{"", "ug", "ext"}[i%3]
+	}
+	return ""
+}
+
+func c16MkInfo(style, name string, i int, dir bool) os.FileInfo {
+	b := c16Info{name: name, idx: i, dir: dir}
+	switch c16AttrKind(style, i) {
+	case "ug":
+		return c16InfoUG{b}
+	case "ext":
+		return c16InfoExt{c16InfoUG{b}}
+	}
+	return b
+}
+
+// c16AttrBad compares what the client returned for entry i with what the lister served ("" = equal).
+func c16AttrBad(style string, i int, dir bool, fi os.FileInfo) string {
+	want := c16Info{idx: i, dir: dir}
+	if fi.Size() != want.Size() || fi.Mode() != want.Mode() || fi.ModTime().Unix() != want.ModTime().Unix() {
+		return fmt.Sprintf("entry %d: size/mode/mtime %d/%v/%d, served %d/%v/%d", i, fi.Size(), fi.Mode(), fi.ModTime().Unix(), want.Size(), want.Mode(), want.ModTime().Unix())
+	}
+	st, ok := fi.Sys().(*sftp.FileStat)
+	if !ok {
+		return fmt.Sprintf("entry %d: Sys() is %T", i, fi.Sys())
+	}
+	var uid, gid uint32
+	var ext []sftp.StatExtended
+	switch c16AttrKind(style, i) {
+	case "ug":
+		uid, gid = c16InfoUG{want}.Uid(), c16InfoUG{want}.Gid()
+	case "ext":
+		uid, gid = c16InfoUG{want}.Uid(), c16InfoUG{want}.Gid()
+		ext = c16Ext(i)
+	}
+	if st.UID != uid || st.GID != gid {
+		return fmt.Sprintf("entry %d: uid/gid %d/%d, served %d/%d", i, st.UID, st.GID, uid, gid)
+	}
+	if len(st.Extended) != len(ext) {
+		return fmt.Sprintf("entry %d: %d extended pairs, served %d", i, len(st.Extended), len(ext))
+	}
+	for k := range ext {
+		if st.Extended[k] != ext[k] {
+			return fmt.Sprintf("entry %d: extended pair %d is %q, served %q", i, k, st.Extended[k], ext[k])
+		}
+	}
+	return ""
+}
+
+var c16OneByte = func() []string {
+	var t []string
+	for b := 1; b < 256; b++ {
+		if b != '/' && b != '.' {
+			t = append(t, string([]byte{byte(b)}))
+		}
+	}
+	return t
+}()
+
+func c16Pad(prefix string, n int) string {
+	if len(prefix) >= n {
+		return prefix
+	}
+	return prefix + strings.Repeat("x", n-len(prefix))
+}
+
+// c16Name: the name of entry i under a name style; all names are legal directory entry names
+// (non-empty, no '/', no NUL, not "." or ".."), pairwise distinct.
+func c16Name(style string, i int) string {
+	switch style {
+	case "long": // ~120 bytes
+		return c16Pad(fmt.Sprintf("e%05d_", i), 120)
+	case "max": // NAME_MAX
+		return c16Pad(fmt.Sprintf("e%05d_", i), 255)
+	case "mixed":
+		switch i % 6 {
+		case 0:
+			if i/6 < len(c16OneByte) {
+				return c16OneByte[i/6] // length 1, every byte value but '/', '.', NUL
+			}
+		case 1:
+			return c16Pad(fmt.Sprintf("e%d_", i), 255)
+		case 2:
+			return fmt.Sprintf("e%d a\nb\t ", i) // spaces, newline, tab, trailing space
+		case 3:
+			return fmt.Sprintf("e%d\xff\xfe\x80\xc3", i) // not UTF-8
+		case 4:
+			return c16Pad(fmt.Sprintf("e%d_", i), 120)
+		case 5:
+			switch i {
+			case 5:
+				return "..."
+			case 11:
+				return ". "
+			case 17:
+				return " .."
+			case 23:
+				return "..\n"
+			case 29:
+				return " ."
+			}
+			return fmt.Sprintf([]string{".e%d", "..e%d", "e%d.", "e%d..", "...%d", ". %d"}[(i/6)%6], i) // dot look-alikes
+		}
+	}
+	return fmt.Sprintf("e%d", i)
+}
+
+// ---------------------------------------------------------------------------------------------
+// request-server side: scripted lister + a small tree of directories keyed by Request.Filepath
+// ---------------------------------------------------------------------------------------------
+
 // c16Lister is the scripted ListerAt: a function of the offset only (like the Lean `scriptBeh`).
 type c16Lister struct {
 	ents        []os.FileInfo
 	sizes       []int
 	eofWithLast bool
 	calls       *int64
+	closes      *int64
 }
 
 func (l c16Lister) ListAt(ls []os.FileInfo, off int64) (int, error) {
@@ -67,29 +219,113 @@ func (l c16Lister) ListAt(ls []os.FileInfo, off int64) (int, error) {
 	return k, nil
 }
 
-type c16Handlers struct{ l c16Lister }
-
-func (h c16Handlers) Filelist(r *sftp.Request) (sftp.ListerAt, error) {
-	switch r.Method {
-	case "List":
-		return h.l, nil
-	case "Stat":
-		one := c16Lister{ents: []os.FileInfo{c16Info{name: "d", dir: true}}, calls: new(int64)}
-		return one, nil
+func (l c16Lister) Close() error {
+	if l.closes != nil {
+		atomic.AddInt64(l.closes, 1)
 	}
-	return nil, os.ErrInvalid
+	return nil
 }
 
+// c16FS is the FileLister: the root directory is served by the scripted lister, but only when it is
+// asked for under the path the start directory and the client's argument resolve to.
+type c16FS struct {
+	root  string
+	rootL c16Lister
+	kids  map[string][]os.FileInfo // Filepath of a sub-directory -> entries
+	files map[string]bool          // Filepath of every non-directory
+	mu    sync.Mutex
+	wrong []string // Filepaths asked for that do not exist in the tree
+}
+
+func (h *c16FS) Filelist(r *sftp.Request) (sftp.ListerAt, error) {
+	_, isKid := h.kids[r.Filepath]
+	switch r.Method {
+	case "List":
+		if r.Filepath == h.root {
+			return h.rootL, nil
+		}
+		if isKid {
+			return c16Lister{ents: h.kids[r.Filepath], calls: new(int64)}, nil
+		}
+	case "Stat", "Lstat":
+		if r.Filepath == h.root || isKid || h.files[r.Filepath] {
+			one := c16Info{name: path.Base(r.Filepath), dir: !h.files[r.Filepath]}
+			return c16Lister{ents: []os.FileInfo{one}, calls: new(int64)}, nil
+		}
+	}
+	h.mu.Lock()
+	h.wrong = append(h.wrong, r.Method+" "+r.Filepath)
+	h.mu.Unlock()
+	return nil, os.ErrNotExist
+}
+
+// c16FSLookup additionally implements sftp.NameLookupFileLister (long names with owner / group names).
+type c16FSLookup struct{ *c16FS }
+
+func (c16FSLookup) LookupUserName(uid string) string {
+	return "user name of " + uid + " " + strings.Repeat("u", 40)
+}
+func (c16FSLookup) LookupGroupName(gid string) string { return "group\tof " + gid }
+
+// ---------------------------------------------------------------------------------------------
+// the case
+// ---------------------------------------------------------------------------------------------
+
 type c16Case struct {
-	Batch       int    `json:"batch"`
+	Batch       int    `json:"batch"` // MaxFilelist of the run (request server)
 	N           int    `json:"n"`
 	Sizes       []int  `json:"sizes"`
 	EOFWithLast bool   `json:"eof_with_last"`
 	DotMask     string `json:"dotmask"`
 	Server      string `json:"server"` // rs | os
+
+	DefaultBatch bool   `json:"default_batch,omitempty"` // sftp.MaxFilelist is left as the package sets it; Batch records its value
+	Alloc        bool   `json:"alloc,omitempty"`         // WithRSAllocator / WithAllocator
+	MaxTx        uint32 `json:"max_tx,omitempty"`        // WithRSMaxTxPacket / WithMaxTxPacket (0 = option not given)
+	Rel          string `json:"rel,omitempty"`           // "" | name | dot | updown | nested | absopt | rootrel: start/working directory option and the form of the path argument
+	API          string `json:"api,omitempty"`           // "" = ReadDir | ctx | cancel | walk | glob
+	CancelAt     int    `json:"cancel_at,omitempty"`     // api cancel: the context is cancelled when the k-th NAME reply reaches the client
+	Names        string `json:"names,omitempty"`         // "" = e<i> | long | max | mixed
+	Attrs        string `json:"attrs,omitempty"`         // "" | ug | ext | mix | lookup
+	Par          int    `json:"par,omitempty"`           // > 1: that many listings of the directory in parallel on the one client
 }
 
-func (cs c16Case) line() string {
+func (cs c16Case) key() string {
+	b, _ := json.Marshal(cs)
+	return string(b)
+}
+
+func (cs c16Case) api() string {
+	if cs.API == "" {
+		return "readdir"
+	}
+	return cs.API
+}
+
+func (cs c16Case) isDot(i int) bool {
+	return i < len(cs.DotMask) && (cs.DotMask[i] == 'd' || cs.DotMask[i] == 'D')
+}
+
+func (cs c16Case) isDir(i int) bool { return cs.api() == "walk" && i%3 == 0 && !cs.isDot(i) }
+
+func (cs c16Case) name(i int) string {
+	if i < len(cs.DotMask) {
+		switch cs.DotMask[i] {
+		case 'd':
+			return "."
+		case 'D':
+			return ".."
+		}
+	}
+	return c16Name(cs.Names, i)
+}
+
+// modelLine: the driver op that expresses the case, or "" when the model cannot (then only the model
+// comparison is skipped; the direct oracle runs).
+func (cs c16Case) modelLine() string {
+	if cs.Server != "rs" || (cs.api() != "readdir" && cs.api() != "ctx") || cs.Par > 1 {
+		return ""
+	}
 	e := "0"
 	if cs.EOFWithLast {
 		e = "1"
@@ -102,71 +338,729 @@ func (cs c16Case) line() string {
 		}
 		sz = strings.Join(p, ",")
 	}
-	m := cs.DotMask
-	if m == "" {
-		m = "-"
+	if cs.Names == "" {
+		m := cs.DotMask
+		if m == "" {
+			m = "-"
+		}
+		return fmt.Sprintf("c16.list %s %d %d %s/%s %s", c16Cfg, cs.Batch, cs.N, e, sz, m)
 	}
-	return fmt.Sprintf("c16.list %s %d %d %s/%s %s", c16Cfg, cs.Batch, cs.N, e, sz, m)
+	names := "-"
+	if cs.N > 0 {
+		var p []string
+		for i := 0; i < cs.N; i++ {
+			p = append(p, hex.EncodeToString([]byte(cs.name(i))))
+		}
+		names = strings.Join(p, ",")
+	}
+	return fmt.Sprintf("c16.listnames %s %d %s/%s %s", c16Cfg, cs.Batch, e, sz, names)
 }
 
 // c16Cfg / c16OSCfg are replaced at the start of checkC16 by the tokens regenerated from the source (gCurCfg).
 var c16Cfg, c16OSCfg = "111111", "11111 128"
 
-func c16RunRS(cs c16Case) (idx []int, names []string, rounds int64, errClass string, err error) {
-	old := sftp.MaxFilelist
-	sftp.MaxFilelist = int64(cs.Batch)
-	defer func() { sftp.MaxFilelist = old }()
-	var ents []os.FileInfo
-	for i := 0; i < cs.N; i++ {
-		name := fmt.Sprintf("e%d", i)
-		if i < len(cs.DotMask) {
-			switch cs.DotMask[i] {
-			case 'd':
-				name = "."
-			case 'D':
-				name = ".."
+const c16Start = "/start/dir"
+
+// c16RSPaths: the path argument handed to the client and the Filepath the handler must be asked for.
+func c16RSPaths(rel string) (arg, want string, opt bool) {
+	switch rel {
+	case "name":
+		return "d", c16Start + "/d", true
+	case "dot":
+		return "./d", c16Start + "/d", true
+	case "updown":
+		return "x/../d", c16Start + "/d", true
+	case "nested":
+		return "sub/d", c16Start + "/sub/d", true
+	case "absopt":
+		return "/d", "/d", true
+	case "rootrel":
+		return "d", "/d", false
+	}
+	return "/d", "/d", false
+}
+
+// ---------------------------------------------------------------------------------------------
+// pair with a tap on the server -> client stream (counts NAME replies; used to cancel mid-listing)
+// ---------------------------------------------------------------------------------------------
+
+type c16Tap struct {
+	r      io.Reader
+	hdr    [5]byte
+	have   int
+	left   uint32
+	names  int
+	onName func(k int)
+}
+
+func (t *c16Tap) Read(p []byte) (int, error) {
+	n, err := t.r.Read(p)
+	for _, b := range p[:n] {
+		if t.left > 0 {
+			t.left--
+			continue
+		}
+		t.hdr[t.have] = b
+		t.have++
+		if t.have == 5 {
+			t.have = 0
+			l := uint32(t.hdr[0])<<24 | uint32(t.hdr[1])<<16 | uint32(t.hdr[2])<<8 | uint32(t.hdr[3])
+			if l > 0 {
+				t.left = l - 1
+			}
+			if t.hdr[4] == 104 { // SSH_FXP_NAME
+				t.names++
+				if t.onName != nil {
+					t.onName(t.names)
+				}
 			}
 		}
-		ents = append(ents, c16Info{name: name, idx: i})
 	}
-	calls := new(int64)
-	h := c16Handlers{l: c16Lister{ents: ents, sizes: cs.Sizes, eofWithLast: cs.EOFWithLast, calls: calls}}
-	p, err := vhStartRS(sftp.Handlers{FileList: h}, nil)
+	return n, err
+}
+
+// c16PairT closes like vhPair, and additionally closes the client's end of the server -> client pipe once the
+// client is down: a server blocked on writing a reply nobody reads any more (the client gave up on the stream)
+// returns at once instead of after the 10 s grace.
+type c16PairT struct {
+	*vhPair
+	s2cR *io.PipeReader
+}
+
+func (p c16PairT) Close() {
+	fin := make(chan struct{})
+	go func() {
+		p.Client.Close()
+		p.s2cR.Close()
+		<-p.done
+		close(fin)
+	}()
+	select {
+	case <-fin:
+	case <-time.After(10 * time.Second):
+		p.s2cR.Close()
+	}
+}
+
+func c16StartPair(cs c16Case, h sftp.Handlers, workDir string, onName func(int)) (c16PairT, error) {
+	c2sR, c2sW := io.Pipe()
+	s2cR, s2cW := io.Pipe()
+	end := vhPipeEnd{Reader: c2sR, WriteCloser: s2cW, extra: func() { c2sR.Close() }}
+	p := c16PairT{&vhPair{done: make(chan error, 1)}, s2cR}
+	if cs.Server == "rs" {
+		var so []sftp.RequestServerOption
+		if cs.Alloc {
+			so = append(so, sftp.WithRSAllocator())
+		}
+		if cs.MaxTx != 0 {
+			so = append(so, sftp.WithRSMaxTxPacket(cs.MaxTx))
+		}
+		if _, _, opt := c16RSPaths(cs.Rel); opt {
+			so = append(so, sftp.WithStartDirectory(c16Start))
+		}
+		rs := sftp.NewRequestServer(end, h, so...)
+		p.RS = rs
+		go func() { err := rs.Serve(); s2cW.Close(); p.done <- err }()
+	} else {
+		var so []sftp.ServerOption
+		if cs.Alloc {
+			so = append(so, sftp.WithAllocator())
+		}
+		if cs.MaxTx != 0 {
+			so = append(so, sftp.WithMaxTxPacket(cs.MaxTx))
+		}
+		if workDir != "" {
+			so = append(so, sftp.WithServerWorkingDirectory(workDir))
+		}
+		srv, err := sftp.NewServer(end, so...)
+		if err != nil {
+			return p, err
+		}
+		p.OS = srv
+		go func() { err := srv.Serve(); s2cW.Close(); p.done <- err }()
+	}
+	c, err := sftp.NewClientPipe(&c16Tap{r: s2cR, onName: onName}, c2sW)
 	if err != nil {
-		return nil, nil, 0, "", err
+		c2sW.Close()
+		s2cR.Close()
+		return p, err
+	}
+	p.Client = c
+	return p, nil
+}
+
+// ---------------------------------------------------------------------------------------------
+// one run of a consumer of listings
+// ---------------------------------------------------------------------------------------------
+
+type c16Listing struct {
+	fis   []os.FileInfo // readdir, ctx, cancel
+	paths []string      // walk: every path stepped on; glob: the matches
+	err   error
+	hang  bool
+}
+
+func c16ErrClass(l c16Listing) string {
+	switch {
+	case l.hang:
+		return "hang"
+	case l.err == nil:
+		return "nil"
+	case l.err == io.EOF:
+		return "eof"
+	case errors.Is(l.err, context.Canceled):
+		return "canceled"
+	}
+	return "other"
+}
+
+// c16Consume lists directory `arg` through the API of the case; ctx is used by ctx / cancel only.
+func c16Consume(cl *sftp.Client, api, arg string, ctx context.Context) c16Listing {
+	ch := make(chan c16Listing, 1)
+	go func() {
+		var l c16Listing
+		switch api {
+		case "ctx", "cancel":
+			l.fis, l.err = cl.ReadDirContext(ctx, arg)
+		case "walk":
+			w := cl.Walk(arg)
+			for steps := 0; w.Step(); steps++ {
+				if w.Err() != nil && l.err == nil {
+					l.err = fmt.Errorf("walk %q: %w", w.Path(), w.Err())
+				}
+				l.paths = append(l.paths, w.Path())
+				if steps > 1_000_000 {
+					l.err = errors.New("walk made more than 1000000 steps")
+					break
+				}
+			}
+		case "glob":
+			l.paths, l.err = cl.Glob(arg + "/*")
+		default:
+			l.fis, l.err = cl.ReadDir(arg)
+		}
+		ch <- l
+	}()
+	select {
+	case l := <-ch:
+		return l
+	case <-time.After(20 * time.Second):
+		return c16Listing{hang: true}
+	}
+}
+
+type c16Verdict struct {
+	key, what        string
+	expected, actual any
+}
+
+// c16Judge: the direct oracle.  The directory as served is a function of the case (names, dot mask,
+// attributes); on the request server the order is the lister's, on the os-backed server the file system's.
+func c16Judge(cs c16Case, l c16Listing, arg string, kids map[int]int, follow *c16Listing, minPrefix int) *c16Verdict {
+	pre := cs.Server + "/"
+	var want []int
+	for i := 0; i < cs.N; i++ {
+		if !cs.isDot(i) {
+			want = append(want, i)
+		}
+	}
+	ordered := cs.Server == "rs"
+	ec := c16ErrClass(l)
+	if ec == "hang" {
+		return &c16Verdict{key: pre + "listing-does-not-terminate", what: "the listing (" + cs.api() + ") did not return within 20 s"}
+	}
+	byName := map[string]int{}
+	for _, i := range want {
+		byName[cs.name(i)] = i
+	}
+	switch cs.api() {
+	case "walk", "glob":
+		var exp []string
+		if cs.api() == "walk" {
+			exp = append(exp, arg)
+		}
+		for _, i := range want {
+			p := path.Join(arg, cs.name(i))
+			exp = append(exp, p)
+			if cs.isDir(i) && cs.api() == "walk" {
+				for j := 0; j < kids[i]; j++ {
+					exp = append(exp, path.Join(p, fmt.Sprintf("c%d", j)))
+				}
+			}
+		}
+		got := append([]string(nil), l.paths...)
+		if !ordered {
+			sort.Strings(exp)
+			sort.Strings(got)
+		}
+		if ec != "nil" || strings.Join(got, "\x00") != strings.Join(exp, "\x00") {
+			return &c16Verdict{key: pre + "listing-not-exact/" + cs.api(), what: cs.api() + " over the directory did not visit every entry exactly once",
+				expected: c16Q(exp), actual: map[string]any{"paths": c16Q(l.paths), "err": fmt.Sprint(l.err)}}
+		}
+		return nil
+	}
+	// ReadDir / ReadDirContext: the entries returned
+	check := func(fis []os.FileInfo, full bool, minLen int) (bad string) {
+		seen := map[int]bool{}
+		var idx []int
+		for j, fi := range fis {
+			i, ok := byName[fi.Name()]
+			if !ok {
+				return fmt.Sprintf("position %d: name %q is not an entry of the directory (or is . / ..)", j, fi.Name())
+			}
+			if seen[i] {
+				return fmt.Sprintf("position %d: entry %q returned twice", j, fi.Name())
+			}
+			seen[i] = true
+			idx = append(idx, i)
+			if a := c16AttrBad(cs.Attrs, i, cs.isDir(i), fi); a != "" && ordered {
+				return a
+			}
+			if !ordered && (fi.Size() != int64(i) || fi.Mode() != 0o600) {
+				return fmt.Sprintf("entry %q: size %d mode %v, on disk %d -rw-------", fi.Name(), fi.Size(), fi.Mode(), i)
+			}
+		}
+		if ordered {
+			for j, i := range idx {
+				if j >= len(want) || want[j] != i {
+					return fmt.Sprintf("position %d holds entry %d: not the served order", j, i)
+				}
+			}
+		}
+		if full && len(idx) != len(want) {
+			return fmt.Sprintf("%d of %d entries returned", len(idx), len(want))
+		}
+		if len(idx) < minLen {
+			return fmt.Sprintf("%d entries returned, at least %d had been received before the cancellation", len(idx), minLen)
+		}
+		return ""
+	}
+	act := func(l c16Listing) any {
+		var names []string
+		var sizes []int64
+		for _, fi := range l.fis {
+			names = append(names, fi.Name())
+			sizes = append(sizes, fi.Size())
+		}
+		if len(names) > 40 {
+			names = append(names[:40:40], fmt.Sprintf("… %d more", len(l.fis)-40))
+			sizes = sizes[:40]
+		}
+		return map[string]any{"names": c16Q(names), "sizes": sizes, "returned": len(l.fis), "err": fmt.Sprint(l.err)}
+	}
+	if cs.api() == "cancel" {
+		switch ec {
+		case "nil": // the cancellation lost every race: a complete listing
+			if bad := check(l.fis, true, 0); bad != "" {
+				return &c16Verdict{key: pre + "listing-not-exact/cancel", what: "ReadDirContext returned nil but not the exact listing: " + bad, expected: want, actual: act(l)}
+			}
+		case "canceled":
+			if bad := check(l.fis, false, minPrefix); bad != "" {
+				return &c16Verdict{key: pre + "cancel/partial-listing-wrong", what: "ReadDirContext cancelled mid-listing did not return the entries listed so far, each once: " + bad, expected: want, actual: act(l)}
+			}
+		default:
+			return &c16Verdict{key: pre + "cancel/wrong-error", what: "ReadDirContext cancelled mid-listing returned neither the context's error nor a complete listing", expected: "context canceled", actual: act(l)}
+		}
+		if follow != nil {
+			if c16ErrClass(*follow) == "hang" {
+				return &c16Verdict{key: pre + "cancel/client-unusable", what: "ReadDir on the same client after a cancelled ReadDirContext did not return within 20 s"}
+			}
+			if bad := check(follow.fis, true, 0); bad != "" || follow.err != nil {
+				return &c16Verdict{key: pre + "cancel/client-unusable", what: "ReadDir on the same client after a cancelled ReadDirContext is not the exact listing: " + bad, expected: want, actual: act(*follow)}
+			}
+		}
+		return nil
+	}
+	if bad := check(l.fis, true, 0); bad != "" || ec != "nil" {
+		key := pre + "listing-not-exact"
+		if cs.Server == "os" && cs.Names != "" {
+			key += "/long-names"
+		}
+		if bad == "" {
+			bad = "error " + fmt.Sprint(l.err)
+		}
+		return &c16Verdict{key: key, what: "ReadDir did not return every entry exactly once (minus . and ..) with its attributes: " + bad, expected: want, actual: act(l)}
+	}
+	return nil
+}
+
+func c16Q(l []string) []string {
+	out := make([]string, len(l))
+	for i, s := range l {
+		out[i] = strconv.QuoteToASCII(s)
+	}
+	return out
+}
+
+// ---------------------------------------------------------------------------------------------
+// request server run
+// ---------------------------------------------------------------------------------------------
+
+type c16RSOut struct {
+	l       c16Listing
+	rounds  int64 // ListAt calls on the root lister during the (first) listing
+	closes  int64 // Close calls on the root lister after everything
+	follow  *c16Listing
+	minPre  int
+	wrong   []string
+	arg     string
+	kids    map[int]int
+	parBad  *c16Verdict
+	started error
+}
+
+var c16mu sync.Mutex // sftp.MaxFilelist is a package variable
+
+func c16RunRS(cs c16Case) c16RSOut {
+	var out c16RSOut
+	c16mu.Lock()
+	defer c16mu.Unlock()
+	if !cs.DefaultBatch {
+		old := sftp.MaxFilelist
+		sftp.MaxFilelist = int64(cs.Batch)
+		defer func() { sftp.MaxFilelist = old }()
+	}
+	arg, root, _ := c16RSPaths(cs.Rel)
+	out.arg = arg
+	fsys := &c16FS{root: root, kids: map[string][]os.FileInfo{}, files: map[string]bool{}}
+	out.kids = map[int]int{}
+	var ents []os.FileInfo
+	for i := 0; i < cs.N; i++ {
+		name := cs.name(i)
+		ents = append(ents, c16MkInfo(cs.Attrs, name, i, cs.isDir(i)))
+		if cs.isDot(i) {
+			continue
+		}
+		p := path.Join(root, name)
+		if cs.isDir(i) {
+			var sub []os.FileInfo
+			for j := 0; j < (i/3)%4; j++ {
+				cn := fmt.Sprintf("c%d", j)
+				sub = append(sub, c16Info{name: cn, idx: j})
+				fsys.files[path.Join(p, cn)] = true
+			}
+			if i%2 == 0 { // a legal lister may list . and .. in sub-directories too
+				sub = append([]os.FileInfo{c16Info{name: ".", dir: true}}, append(sub, c16Info{name: "..", dir: true})...)
+			}
+			fsys.kids[p] = sub
+			out.kids[i] = (i / 3) % 4
+		} else {
+			fsys.files[p] = true
+		}
+	}
+	calls, closes := new(int64), new(int64)
+	fsys.rootL = c16Lister{ents: ents, sizes: cs.Sizes, eofWithLast: cs.EOFWithLast, calls: calls, closes: closes}
+	var fl sftp.FileLister = fsys
+	if cs.Attrs == "lookup" {
+		fl = c16FSLookup{fsys}
+	}
+	ctx, cancel := context.WithCancel(context.Background())
+	defer cancel()
+	var onName func(int)
+	if cs.api() == "cancel" {
+		onName = func(k int) {
+			if k == cs.CancelAt {
+				cancel()
+			}
+		}
+		// entries (minus dots) carried by the first CancelAt-1 NAME replies: simulate the lister
+		sim := c16Lister{ents: ents, sizes: cs.Sizes, eofWithLast: cs.EOFWithLast, calls: new(int64)}
+		buf := make([]os.FileInfo, max(cs.Batch, 1))
+		off := 0
+		for k := 1; k < cs.CancelAt; k++ {
+			n, _ := sim.ListAt(buf, int64(off))
+			for i := off; i < off+n; i++ {
+				if !cs.isDot(i) {
+					out.minPre++
+				}
+			}
+			off += n
+		}
+	}
+	p, err := c16StartPair(cs, sftp.Handlers{FileList: fl}, "", onName)
+	if err != nil {
+		out.started = err
+		return out
 	}
 	defer p.Close()
-	type res struct {
-		fis []os.FileInfo
-		err error
-	}
-	ch := make(chan res, 1)
-	go func() { fis, err := p.Client.ReadDir("/d"); ch <- res{fis, err} }()
-	select {
-	case r := <-ch:
-		for _, fi := range r.fis {
-			idx = append(idx, int(fi.Size()))
-			names = append(names, fi.Name())
+	if cs.Par > 1 {
+		res := make([]c16Listing, cs.Par)
+		var wg sync.WaitGroup
+		for g := 0; g < cs.Par; g++ {
+			wg.Add(1)
+			go func(g int) { defer wg.Done(); res[g] = c16Consume(p.Client, cs.api(), arg, ctx) }(g)
 		}
-		switch {
-		case r.err == nil:
-			errClass = "nil"
-		case r.err == io.EOF:
-			errClass = "eof"
-		default:
-			errClass = "other"
+		wg.Wait()
+		out.l = res[0]
+		for g := 1; g < cs.Par; g++ {
+			if v := c16Judge(cs, res[g], arg, out.kids, nil, 0); v != nil && out.parBad == nil {
+				out.parBad = v
+			}
 		}
-		return idx, names, atomic.LoadInt64(calls), errClass, nil
-	case <-time.After(20 * time.Second):
-		return nil, nil, atomic.LoadInt64(calls), "hang", nil
+	} else {
+		out.l = c16Consume(p.Client, cs.api(), arg, ctx)
 	}
+	out.rounds = atomic.LoadInt64(calls)
+	if cs.api() == "cancel" && !out.l.hang {
+		f := c16Consume(p.Client, "readdir", arg, context.Background())
+		out.follow = &f
+	}
+	out.closes = atomic.LoadInt64(closes)
+	fsys.mu.Lock()
+	out.wrong = append([]string(nil), fsys.wrong...)
+	fsys.mu.Unlock()
+	return out
+}
+
+// ---------------------------------------------------------------------------------------------
+// os-backed server run
+// ---------------------------------------------------------------------------------------------
+
+type c16OSDir struct {
+	n     int
+	names string
+}
+
+func c16MakeDir(root string, d c16OSDir) (string, error) {
+	dir := filepath.Join(root, fmt.Sprintf("d%d%s", d.n, d.names))
+	if err := os.Mkdir(dir, 0o755); err != nil {
+		return "", err
+	}
+	for i := 0; i < d.n; i++ {
+		if err := os.WriteFile(filepath.Join(dir, c16Name(d.names, i)), make([]byte, i), 0o600); err != nil {
+			return "", err
+		}
+	}
+	return dir, nil
+}
+
+// c16OpenFDs: descriptors of this process that refer to dir (the os-backed server runs in-process).
+func c16OpenFDs(dir string) int {
+	fds, _ := os.ReadDir("/proc/self/fd")
+	n := 0
+	for _, fd := range fds {
+		if t, err := os.Readlink("/proc/self/fd/" + fd.Name()); err == nil && t == dir {
+			n++
+		}
+	}
+	return n
+}
+
+type c16OSOut struct {
+	l       c16Listing
+	follow  *c16Listing
+	minPre  int
+	arg     string
+	fdsLeft int
+	parBad  *c16Verdict
+	started error
+}
+
+func c16RunOS(cs c16Case, root, dir string) c16OSOut {
+	var out c16OSOut
+	base := filepath.Base(dir)
+	work := ""
+	out.arg = dir
+	switch cs.Rel {
+	case "name":
+		work, out.arg = root, base
+	case "dot":
+		work, out.arg = root, "./"+base
+	case "updown":
+		work, out.arg = root, "x/../"+base
+	case "absopt":
+		work = "/nonexistent-working-directory"
+	}
+	ctx, cancel := context.WithCancel(context.Background())
+	defer cancel()
+	var onName func(int)
+	if cs.api() == "cancel" {
+		onName = func(k int) {
+			if k == cs.CancelAt {
+				cancel()
+			}
+		}
+		out.minPre = min((cs.CancelAt-1)*cs.Batch, cs.N)
+	}
+	p, err := c16StartPair(cs, sftp.Handlers{}, work, onName)
+	if err != nil {
+		out.started = err
+		return out
+	}
+	defer p.Close()
+	if cs.Par > 1 {
+		res := make([]c16Listing, cs.Par)
+		var wg sync.WaitGroup
+		for g := 0; g < cs.Par; g++ {
+			wg.Add(1)
+			go func(g int) { defer wg.Done(); res[g] = c16Consume(p.Client, cs.api(), out.arg, ctx) }(g)
+		}
+		wg.Wait()
+		out.l = res[0]
+		for g := 1; g < cs.Par; g++ {
+			if v := c16Judge(cs, res[g], out.arg, nil, nil, 0); v != nil && out.parBad == nil {
+				out.parBad = v
+			}
+		}
+	} else {
+		out.l = c16Consume(p.Client, cs.api(), out.arg, ctx)
+	}
+	if cs.api() == "cancel" && !out.l.hang {
+		f := c16Consume(p.Client, "readdir", out.arg, context.Background())
+		out.follow = &f
+	}
+	if !out.l.hang {
+		out.fdsLeft = c16OpenFDs(dir)
+	}
+	return out
+}
+
+// ---------------------------------------------------------------------------------------------
+// generators
+// ---------------------------------------------------------------------------------------------
+
+var (
+	c16Rels   = []string{"", "name", "dot", "updown", "nested", "absopt", "rootrel"}
+	c16OSRels = []string{"", "name", "dot", "updown", "absopt"}
+	c16APIs   = []string{"readdir", "ctx", "cancel", "walk", "glob"}
+	c16NameSt = []string{"", "mixed", "long", "max"}
+	c16AttrSt = []string{"", "ug", "ext", "mix", "lookup"}
+	c16MaxTxs = []uint32{0, 32768, 65536, 1 << 20}
+)
+
+// c16Opt decorates base case number k with option values: rotations with pairwise co-prime periods
+// (offsets from the seed), so that the cost stays that of the base space while every value and most
+// pairs of values occur.
+func c16Opt(cs c16Case, k int, off []int) c16Case {
+	cs.Alloc = (k+off[0])%2 == 1
+	cs.MaxTx = c16MaxTxs[(k/2+off[1])%len(c16MaxTxs)]
+	cs.Rel = c16Rels[(k+off[2])%len(c16Rels)]
+	cs.API = c16APIs[(k+off[3])%len(c16APIs)]
+	if cs.API == "readdir" {
+		cs.API = ""
+	}
+	cs.Names = c16NameSt[(k/5+off[4])%len(c16NameSt)]
+	cs.Attrs = c16AttrSt[(k/3+off[5])%len(c16AttrSt)]
+	if (k+off[6])%11 == 0 {
+		cs.Par = 4
+	}
+	return c16Fix(cs, k)
+}
+
+// c16Fix derives the dependent fields (cancellation point) of a case.
+func c16Fix(cs c16Case, k int) c16Case {
+	if cs.api() == "cancel" {
+		replies := 1
+		if cs.Batch > 0 {
+			replies = (cs.N + cs.Batch - 1) / cs.Batch
+		}
+		cs.CancelAt = 1 + k%max(replies, 1)
+		cs.Par = 0
+	} else {
+		cs.CancelAt = 0
+	}
+	return cs
+}
+
+func c16RSBase(c *lib.Ctx, batches []int, defaultBatch bool) []c16Case {
+	var cases []c16Case
+	for _, batch := range batches {
+		ns := []int{}
+		for n := 0; n <= 2*batch+2; n++ {
+			ns = append(ns, n)
+		}
+		if defaultBatch {
+			ns = []int{0, 1, batch - 1, batch, batch + 1, 2*batch - 1, 2 * batch, 2*batch + 1, 2*batch + 2}
+			if c.Tier == "thorough" {
+				ns = append(ns, 2, batch/2, 3*batch-1, 3*batch, 3*batch+1)
+			}
+		}
+		for _, n := range ns {
+			if n < 0 {
+				continue
+			}
+			for _, ewl := range []bool{false, true} {
+				pats := [][]int{nil, {1}, {2, 1}, {1, 1, 1}, {batch}, {batch + 1, 1}}
+				if defaultBatch {
+					pats = [][]int{nil, {batch - 1, 1}, {batch + 1, 1}, {batch / 2}}
+				}
+				if c.Tier == "thorough" {
+					for k := 0; k < 6; k++ {
+						var p []int
+						for j := 0; j < 1+c.Rand.Intn(4); j++ {
+							p = append(p, 1+c.Rand.Intn(batch+1))
+						}
+						pats = append(pats, p)
+					}
+				}
+				for _, sz := range pats {
+					masks := []string{""}
+					if n >= 2 {
+						masks = append(masks, "dD", strings.Repeat("n", n-1)+"d")
+						// . and .. at any position: one pair of positions per case in quick, every pair (n small) in thorough
+						pd, pD := c.Rand.Intn(n), c.Rand.Intn(n)
+						masks = append(masks, c16MaskAt(n, pd, pD))
+						if defaultBatch { // around the batch boundary
+							for _, q := range []int{batch - 1, batch, batch + 1} {
+								if q < n {
+									masks = append(masks, c16MaskAt(n, q, (q+1)%n))
+								}
+							}
+						}
+					}
+					if n >= 4 && c.Tier == "thorough" {
+						masks = append(masks, "ndnD", "D"+strings.Repeat("n", n-2)+"d")
+						if n <= 12 && sz == nil {
+							for a := 0; a < n; a++ {
+								for b := 0; b < n; b++ {
+									masks = append(masks, c16MaskAt(n, a, b))
+								}
+							}
+						}
+						// several dot entries
+						var m []byte
+						for i := 0; i < n; i++ {
+							m = append(m, "nnndD"[c.Rand.Intn(5)])
+						}
+						masks = append(masks, string(m))
+					}
+					seen := map[string]bool{}
+					for _, m := range masks {
+						if seen[m] {
+							continue
+						}
+						seen[m] = true
+						cases = append(cases, c16Case{Batch: batch, N: n, Sizes: sz, EOFWithLast: ewl, DotMask: m, Server: "rs", DefaultBatch: defaultBatch})
+					}
+				}
+			}
+		}
+	}
+	return cases
+}
+
+// c16MaskAt: "." at position a, ".." at position b (b wins when equal).
+func c16MaskAt(n, a, b int) string {
+	m := []byte(strings.Repeat("n", n))
+	m[a] = 'd'
+	m[b] = 'D'
+	return string(m)
 }
 
 func checkC16(c *lib.Ctx) {
 	r := c.R
 	c16Cfg = gCurCfg(c, "c16", c16Cfg)
 	c16OSCfg = gCurCfg(c, "c16os", c16OSCfg)
-	r.Rule = "request server: every directory size 0..2*batch+2 x batch 1..5 x scripted legal ListAt behaviours (EOF with the last entries or on the following call; short-batch cut patterns) x dot/dotdot masks, end to end through Client.ReadDir with MaxFilelist = batch; os-backed server: real directories around the Readdir(128) batch boundary; non-trivial = listing that spans more than one batch or contains a dot entry; distinct by (server, batch, n, behaviour, mask)"
+	osBatch := 128
+	if f := strings.Fields(c16OSCfg); len(f) == 2 {
+		if v, err := strconv.Atoi(f[1]); err == nil && v > 0 {
+			osBatch = v
+		}
+	}
+	defBatch := int(sftp.MaxFilelist)
+	r.Rule = "base space (enumerated completely): request server, every directory size 0..2*batch+2 x batch 1..5, and the DEFAULT MaxFilelist with sizes {0,1,B-1,B,B+1,2B-1,2B,2B+1,2B+2}, x scripted legal ListAt behaviours (EOF with the last entries or on the following call; short-batch cut patterns) x masks placing . and .. at fixed and at random positions (thorough: every pair of positions for n <= 12, several dot entries); os-backed server: real directories around the Readdir(128) batch boundary, of >= 1024 entries, with names of length 1 / 120 / 255 and names with spaces, newlines, non-UTF-8 bytes and dot look-alikes. " +
+		"Option dimensions laid over the base space (quick: rotated with co-prime periods and seed-dependent offsets, cost flat; thorough: additionally the full product allocator x max-tx-packet x start/working-directory+relative-path form x API on a reduced base): allocator on/off; WithRSMaxTxPacket/WithMaxTxPacket {none, 32768, 65536, 1 MiB}; WithStartDirectory / WithServerWorkingDirectory with the path argument absolute, `d`, `./d`, `x/../d`, `sub/d`, and a relative path without the option; consumer API ReadDir, ReadDirContext (live context), ReadDirContext cancelled when the k-th NAME reply arrives (listed-so-far prefix + context error or a complete listing; then ReadDir on the same client must be exact; the handle must have been closed), Walk (tree with sub-directories, every path once), Glob(dir/*); entry names {e<i>, mixed, 120 bytes, 255 bytes}; served attributes {size/mode/mtime, +uid/gid, +extended pairs, mixed within one reply, NameLookupFileLister long names}; 4 parallel listings on one client. " +
+		"non-trivial = listing that spans more than one batch or contains a dot entry or uses a non-default option; distinct by the whole case"
 	var cases []c16Case
 	if c.Replay != "" {
 		var one c16Case
@@ -174,32 +1068,67 @@ func checkC16(c *lib.Ctx) {
 			r.Fail(lib.Failure{Kind: "tie", Key: "replay", What: err.Error()})
 			return
 		}
+		if one.Server == "" {
+			one.Server = "rs"
+		}
 		cases = []c16Case{one}
 	} else {
-		maxBatch := 5
-		for batch := 1; batch <= maxBatch; batch++ {
-			for n := 0; n <= 2*batch+2; n++ {
-				for _, ewl := range []bool{false, true} {
-					pats := [][]int{nil, {1}, {2, 1}, {1, 1, 1}, {batch}, {batch + 1, 1}}
-					if c.Tier == "thorough" {
-						for k := 0; k < 6; k++ {
-							var p []int
-							for j := 0; j < 1+c.Rand.Intn(4); j++ {
-								p = append(p, 1+c.Rand.Intn(batch+1))
+		off := make([]int, 8)
+		for i := range off {
+			off[i] = c.Rand.Intn(1000)
+		}
+		// 1. the base space as the model sees it (no options): keeps the model comparison complete
+		base := c16RSBase(c, []int{1, 2, 3, 4, 5}, false)
+		cases = append(cases, base...)
+		// 2. the same base space with rotated options
+		for k, cs := range base {
+			cases = append(cases, c16Opt(cs, k, off))
+		}
+		// 3. the default MaxFilelist, plain and with rotated options
+		def := c16RSBase(c, []int{defBatch}, true)
+		for k, cs := range def {
+			cases = append(cases, cs)
+			o := c16Opt(cs, k, off)
+			if o.Names == "max" || o.Names == "mixed" { // keep the default-batch lines short: long names there are `long`
+				o.Names = "long"
+			}
+			cases = append(cases, o)
+		}
+		// 4. thorough: the full option product on a reduced base
+		if c.Tier == "thorough" {
+			var red []c16Case
+			for _, cs := range base {
+				if cs.Batch <= 3 && cs.N >= cs.Batch && len(cs.Sizes) <= 2 && (cs.DotMask == "" || cs.DotMask == "dD") {
+					red = append(red, cs)
+				}
+			}
+			for _, cs := range def {
+				if len(cs.Sizes) == 0 && cs.DotMask == "" && (cs.N == defBatch || cs.N == 2*defBatch+1) {
+					red = append(red, cs)
+				}
+			}
+			k := 0
+			for _, cs := range red {
+				for _, al := range []bool{false, true} {
+					for _, tx := range c16MaxTxs {
+						for _, rel := range c16Rels {
+							for _, api := range c16APIs {
+								k++
+								o := cs
+								o.Alloc, o.MaxTx, o.Rel, o.API = al, tx, rel, api
+								if api == "readdir" {
+									o.API = ""
+								}
+								o.Names = c16NameSt[k%2] // e<i> | mixed
+								if cs.DefaultBatch && o.Names != "" {
+									o.Names = "long"
+								}
+								o.Attrs = c16AttrSt[k%len(c16AttrSt)]
+								if k%13 == 0 {
+									o.Par = 4
+								}
+								cases = append(cases, c16Fix(o, k))
 							}
-							pats = append(pats, p)
-						}
-					}
-					for _, sz := range pats {
-						masks := []string{""}
-						if n >= 2 {
-							masks = append(masks, "dD", strings.Repeat("n", n-1)+"d")
-						}
-						if n >= 4 && c.Tier == "thorough" {
-							masks = append(masks, "ndnD", "D"+strings.Repeat("n", n-2)+"d")
-						}
-						for _, m := range masks {
-							cases = append(cases, c16Case{Batch: batch, N: n, Sizes: sz, EOFWithLast: ewl, DotMask: m, Server: "rs"})
 						}
 					}
 				}
@@ -207,19 +1136,29 @@ func checkC16(c *lib.Ctx) {
 		}
 		r.Exhaustive = true
 	}
+
+	// ------------------------------------------------------------------ request server
 	var lines, impl []string
+	skipped := 0
 	for _, cs := range cases {
 		if cs.Server != "rs" {
 			continue
 		}
-		idx, names, rounds, ec, err := c16RunRS(cs)
-		if err != nil {
-			r.Fail(lib.Failure{Kind: "tie", Key: "rs-start", What: err.Error()})
+		if cs.DefaultBatch {
+			cs.Batch = defBatch
+		}
+		out := c16RunRS(cs)
+		if out.started != nil {
+			r.Fail(lib.Failure{Kind: "tie", Key: "rs-start", What: out.started.Error(), Input: cs})
 			return
 		}
-		key := cs.line()
-		r.Case(key, cs.N > cs.Batch || cs.DotMask != "")
-		r.Hist(fmt.Sprintf("rs-batch%d", cs.Batch))
+		optioned := cs.Alloc || cs.MaxTx != 0 || cs.Rel != "" || cs.API != "" || cs.Names != "" || cs.Attrs != "" || cs.Par > 1 || cs.DefaultBatch
+		r.Case(cs.key(), cs.N > cs.Batch || cs.DotMask != "" || optioned)
+		if cs.DefaultBatch {
+			r.Hist("rs-batch-default")
+		} else {
+			r.Hist(fmt.Sprintf("rs-batch%d", cs.Batch))
+		}
 		if cs.EOFWithLast {
 			r.Hist("eof-with-last")
 		} else {
@@ -228,139 +1167,227 @@ func checkC16(c *lib.Ctx) {
 		if cs.N > cs.Batch {
 			r.Hist("multi-batch")
 		}
-		if len(r.Samples) < 5 && cs.N == 2*cs.Batch+1 && cs.DotMask != "" {
-			r.Sample(map[string]any{"case": cs, "returned": idx, "rounds": rounds})
-		}
-		// direct oracle: each non-dot entry exactly once, in order, attributes (size = index) as served
-		var want []int
-		for i := 0; i < cs.N; i++ {
-			if i < len(cs.DotMask) && (cs.DotMask[i] == 'd' || cs.DotMask[i] == 'D') {
-				continue
-			}
-			want = append(want, i)
-		}
-		okNames := true
-		for j, i := range idx {
-			if names[j] != fmt.Sprintf("e%d", i) {
-				okNames = false
+		c16HistOpts(r, cs)
+		if strings.ContainsAny(cs.DotMask, "dD") {
+			r.Hist("rs-dot-entries")
+			if p := strings.IndexAny(cs.DotMask, "dD"); p > 0 && p < cs.N-1 {
+				r.Hist("rs-dot-entry-in-the-middle")
 			}
 		}
+		var idx []int
+		for _, fi := range out.l.fis {
+			idx = append(idx, int(fi.Size()))
+		}
+		if len(r.Samples) < 5 && cs.N == 2*cs.Batch+1 && cs.DotMask != "" && optioned {
+			r.Sample(map[string]any{"case": cs, "returned": idx, "paths": len(out.l.paths), "rounds": out.rounds, "err": c16ErrClass(out.l)})
+		}
+		ec := c16ErrClass(out.l)
+		v := c16Judge(cs, out.l, out.arg, out.kids, out.follow, out.minPre)
+		if v == nil {
+			v = out.parBad
+		}
+		switch {
+		case v != nil:
+			act := v.actual
+			if len(out.wrong) > 0 {
+				act = map[string]any{"result": v.actual, "handler_asked_for_unknown_paths": out.wrong}
+			}
+			r.Fail(lib.Failure{Kind: "oracle", Key: v.key, What: v.what, Input: cs, Expected: v.expected, Actual: act})
+		case len(out.wrong) > 0:
+			r.Fail(lib.Failure{Kind: "oracle", Key: "rs/handler-asked-for-wrong-path", What: "the listing was exact but the handler was also asked for paths that the start directory and the argument do not resolve to", Input: cs, Actual: out.wrong})
+		case cs.Par <= 1 && out.rounds > int64(cs.N)+1:
+			r.Fail(lib.Failure{Kind: "oracle", Key: "rs/too-many-rounds", What: "more READDIR round trips than entries + 1", Input: cs, Expected: cs.N + 1, Actual: out.rounds})
+		}
+		if v == nil && ec != "hang" && len(out.wrong) == 0 {
+			wantCloses := int64(0)
+			switch cs.api() {
+			case "readdir", "ctx", "glob", "walk":
+				wantCloses = int64(max(cs.Par, 1))
+			case "cancel":
+				wantCloses = 2
+			}
+			if out.closes != wantCloses {
+				key := "rs/handle-not-closed"
+				if cs.api() == "cancel" {
+					key = "rs/cancel/handle-not-closed"
+				}
+				r.Fail(lib.Failure{Kind: "oracle", Key: key, What: "the directory handle of a finished listing was not closed exactly once (Close calls seen by the lister)", Input: cs, Expected: wantCloses, Actual: out.closes})
+			}
+		}
+		if cs.api() == "cancel" {
+			r.Hist("cancel-result/" + ec)
+		}
+		line := cs.modelLine()
+		if line == "" {
+			skipped++
+			r.Hist("model-comparison-skipped/" + c16SkipWhy(cs))
+			continue
+		}
+		lines = append(lines, line)
 		if ec == "hang" {
-			r.Fail(lib.Failure{Kind: "oracle", Key: "rs/listing-does-not-terminate", What: "Client.ReadDir did not return within 20 s", Input: cs})
-		} else if ec != "nil" || fmt.Sprint(idx) != fmt.Sprint(want) || !okNames {
-			r.Fail(lib.Failure{Kind: "oracle", Key: "rs/listing-not-exact", What: "ReadDir did not return every entry exactly once (minus . and ..) with its attributes",
-				Input: cs, Expected: want, Actual: map[string]any{"indices": idx, "names": names, "err": ec}})
-		} else if rounds > int64(cs.N)+1 {
-			r.Fail(lib.Failure{Kind: "oracle", Key: "rs/too-many-rounds", What: "more READDIR round trips than entries + 1", Input: cs, Expected: cs.N + 1, Actual: rounds})
+			impl = append(impl, "nofuel")
+			continue
 		}
 		var is []string
-		for _, i := range idx {
-			is = append(is, strconv.Itoa(i))
+		for _, fi := range out.l.fis {
+			if cs.Names == "" {
+				is = append(is, strconv.Itoa(int(fi.Size())))
+			} else {
+				is = append(is, fmt.Sprintf("%d:%s", fi.Size(), lib.Hex([]byte(fi.Name()))))
+			}
 		}
 		s := "-"
 		if len(is) > 0 {
 			s = strings.Join(is, ",")
 		}
-		lines = append(lines, key)
-		if ec == "hang" {
-			impl = append(impl, "nofuel")
-		} else {
-			impl = append(impl, fmt.Sprintf("ok %d %s %s", rounds, ec, s))
+		if ec == "canceled" {
+			ec = "other"
 		}
+		impl = append(impl, fmt.Sprintf("ok %d %s %s", out.rounds, ec, s))
+	}
+	if skipped > 0 {
+		r.Note("model comparison skipped for %d request-server cases the driver ops cannot express (cancelled context, Walk, Glob, parallel listings); their direct oracle ran", skipped)
 	}
 	c.Compare("c16", lines, impl)
 
-	// os-backed server on real directories around the Readdir batch boundary
-	sizes := []int{0, 1, 2, 127, 128, 129, 255, 256, 257}
-	if c.Tier == "thorough" {
-		sizes = nil
-		for n := 0; n <= 300; n++ {
-			sizes = append(sizes, n)
-		}
+	// ------------------------------------------------------------------ os-backed server
+	type osJob struct {
+		dir   c16OSDir
+		cases []c16Case
 	}
+	var jobs []osJob
 	if c.Replay != "" {
-		sizes = nil
 		for _, cs := range cases {
 			if cs.Server == "os" {
-				sizes = append(sizes, cs.N)
+				jobs = append(jobs, osJob{c16OSDir{cs.N, cs.Names}, []c16Case{cs}})
 			}
+		}
+	} else {
+		off := make([]int, 4)
+		for i := range off {
+			off[i] = c.Rand.Intn(1000)
+		}
+		var dirs []c16OSDir
+		sizes := []int{0, 1, 2, osBatch - 1, osBatch, osBatch + 1, 2*osBatch - 1, 2 * osBatch, 2*osBatch + 1}
+		if c.Tier == "thorough" {
+			sizes = nil
+			for n := 0; n <= 300; n++ {
+				sizes = append(sizes, n)
+			}
+			sizes = append(sizes, 3*osBatch-1, 3*osBatch, 3*osBatch+1, 8*osBatch, 8*osBatch+1, 2000)
+		}
+		for _, n := range sizes {
+			dirs = append(dirs, c16OSDir{n, ""})
+		}
+		dirs = append(dirs, c16OSDir{150, "max"}, c16OSDir{300, "long"}, c16OSDir{osBatch + 1, "max"},
+			c16OSDir{8 * osBatch, "long"}, c16OSDir{8*osBatch + 1, "long"}, c16OSDir{1200, "long"},
+			c16OSDir{1, "mixed"}, c16OSDir{40, "mixed"}, c16OSDir{osBatch, "mixed"}, c16OSDir{2*osBatch + 3, "mixed"}, c16OSDir{8*osBatch + 2, "mixed"})
+		if c.Tier == "thorough" {
+			dirs = append(dirs, c16OSDir{2048, "max"}, c16OSDir{1500, "mixed"}, c16OSDir{3000, "long"})
+		}
+		k := 0
+		for _, d := range dirs {
+			j := osJob{dir: d}
+			mk := func(al bool, tx uint32, rel, api string, par int) c16Case {
+				k++
+				cs := c16Case{Batch: osBatch, N: d.n, Server: "os", Names: d.names, Alloc: al, MaxTx: tx, Rel: rel, API: api, Par: par}
+				if api == "readdir" {
+					cs.API = ""
+				}
+				return c16Fix(cs, k)
+			}
+			j.cases = append(j.cases, mk(false, 0, "", "", 0)) // the plain listing (model comparison)
+			if c.Tier == "thorough" && (d.n <= 2 || d.n%osBatch <= 1 || d.n%osBatch == osBatch-1 || d.names != "") {
+				for _, al := range []bool{false, true} {
+					for _, tx := range c16MaxTxs {
+						for _, rel := range c16OSRels {
+							for _, api := range c16APIs {
+								if d.n > 1500 && (api == "walk" || api == "glob") && rel != "" {
+									continue
+								}
+								j.cases = append(j.cases, mk(al, tx, rel, api, 0))
+							}
+						}
+					}
+				}
+				j.cases = append(j.cases, mk(true, 65536, "name", "", 4), mk(false, 0, "", "ctx", 4))
+			} else {
+				// rotated options, eight per directory: every max-tx value with the allocator on and off,
+				// every path form and every API at least once
+				d0 := len(jobs)
+				for v := 0; v < 8; v++ {
+					j.cases = append(j.cases, mk((v+off[0])%2 == 1, c16MaxTxs[(v/2+d0+off[1])%len(c16MaxTxs)], c16OSRels[(v+d0+off[2])%len(c16OSRels)],
+						c16APIs[(3*v+d0+off[3])%len(c16APIs)], map[bool]int{true: 4, false: 0}[v == (d0+off[0])%8]))
+				}
+			}
+			jobs = append(jobs, j)
 		}
 	}
-	if len(sizes) > 0 {
-		root, err := os.MkdirTemp("", "vh-c16-")
+	if len(jobs) == 0 {
+		return
+	}
+	root, err := os.MkdirTemp("", "vh-c16-")
+	if err != nil {
+		r.Fail(lib.Failure{Kind: "tie", Key: "tmpdir", What: err.Error()})
+		return
+	}
+	defer os.RemoveAll(root)
+	if rp, err := filepath.EvalSymlinks(root); err == nil {
+		root = rp
+	}
+	var olines, oimpl []string
+	oskipped := 0
+	for _, j := range jobs {
+		dir, err := c16MakeDir(root, j.dir)
 		if err != nil {
-			r.Fail(lib.Failure{Kind: "tie", Key: "tmpdir", What: err.Error()})
+			r.Fail(lib.Failure{Kind: "tie", Key: "os-mkdir", What: err.Error()})
 			return
 		}
-		defer os.RemoveAll(root)
-		p, err := vhStartOS(nil)
-		if err != nil {
-			r.Fail(lib.Failure{Kind: "tie", Key: "os-start", What: err.Error()})
-			return
-		}
-		defer p.Close()
-		// entry names of all lengths: a batch of 128 long names encodes to much more than a data packet
-		for _, nl := range []struct{ n, namelen int }{{150, 200}, {300, 120}, {129, 250}} {
-			d := filepath.Join(root, fmt.Sprintf("long%d_%d", nl.n, nl.namelen))
-			os.Mkdir(d, 0o755)
-			want := map[string]bool{}
-			for i := 0; i < nl.n; i++ {
-				name := fmt.Sprintf("e%04d_", i) + strings.Repeat("x", nl.namelen-6)
-				os.WriteFile(filepath.Join(d, name), nil, 0o600)
-				want[name] = true
+		for _, cs := range j.cases {
+			out := c16RunOS(cs, root, dir)
+			if out.started != nil {
+				r.Fail(lib.Failure{Kind: "tie", Key: "os-start", What: out.started.Error(), Input: cs})
+				return
 			}
-			fis, err := p.Client.ReadDir(d)
-			r.Case(fmt.Sprintf("os long names %d x %d", nl.n, nl.namelen), true)
-			r.Hist("os-backed-long-names")
-			got := map[string]int{}
-			for _, fi := range fis {
-				got[fi.Name()]++
-			}
-			bad := err != nil || len(got) != len(want) || len(fis) != nl.n
-			for name := range want {
-				if got[name] != 1 {
-					bad = true
-				}
-			}
-			if bad {
-				r.Fail(lib.Failure{Kind: "oracle", Key: "os/listing-not-exact/long-names", What: "ReadDir of a real directory with long entry names lost or duplicated entries",
-					Input: map[string]int{"entries": nl.n, "name_length": nl.namelen}, Expected: nl.n, Actual: map[string]any{"returned": len(fis), "distinct": len(got), "err": fmt.Sprint(err)}})
-			}
-			os.RemoveAll(d)
-		}
-		var olines, oimpl []string
-		for _, n := range sizes {
-			d := filepath.Join(root, fmt.Sprintf("d%d", n))
-			os.Mkdir(d, 0o755)
-			for i := 0; i < n; i++ {
-				os.WriteFile(filepath.Join(d, fmt.Sprintf("e%d", i)), make([]byte, i), 0o600)
-			}
-			fis, err := p.Client.ReadDir(d)
-			r.Case(fmt.Sprintf("os %d", n), n > 128)
+			r.Case(cs.key(), cs.N > osBatch || cs.Names != "" || cs.Alloc || cs.MaxTx != 0 || cs.Rel != "" || cs.API != "" || cs.Par > 1)
 			r.Hist("os-backed")
-			got := map[string]int64{}
-			dup := false
-			for _, fi := range fis {
-				if _, ok := got[fi.Name()]; ok {
-					dup = true
-				}
-				got[fi.Name()] = fi.Size()
+			switch {
+			case cs.Names != "":
+				r.Hist("os-backed-long-names")
+				r.Hist("os-names/" + cs.Names)
 			}
-			bad := err != nil || dup || len(got) != n
+			if cs.N >= 1024 {
+				r.Hist("os-backed->=1024-entries")
+			}
+			c16HistOpts(r, cs)
+			ec := c16ErrClass(out.l)
+			v := c16Judge(cs, out.l, out.arg, nil, out.follow, out.minPre)
+			if v == nil {
+				v = out.parBad
+			}
+			if v != nil {
+				r.Fail(lib.Failure{Kind: "oracle", Key: v.key, What: v.what, Input: cs, Expected: v.expected, Actual: v.actual})
+			} else if out.fdsLeft != 0 {
+				key := "os/handle-not-closed"
+				if cs.api() == "cancel" {
+					key = "os/cancel/handle-not-closed"
+				}
+				r.Fail(lib.Failure{Kind: "oracle", Key: key, What: "after the listing returned the server still holds the directory open (descriptors of this process referring to it)", Input: cs, Expected: 0, Actual: out.fdsLeft})
+			}
+			if cs.api() == "cancel" {
+				r.Hist("cancel-result/" + ec)
+			}
+			if (cs.api() != "readdir" && cs.api() != "ctx") || cs.Par > 1 {
+				oskipped++
+				r.Hist("model-comparison-skipped/" + c16SkipWhy(cs))
+				continue
+			}
+			// the os model lists in directory order; the implementation's order is the file system's: compare as sorted sets
 			var idx []int
-			for i := 0; i < n && !bad; i++ {
-				if sz, ok := got[fmt.Sprintf("e%d", i)]; !ok || sz != int64(i) {
-					bad = true
-				}
-			}
-			for _, fi := range fis {
+			for _, fi := range out.l.fis {
 				idx = append(idx, int(fi.Size()))
 			}
 			sort.Ints(idx)
-			if bad {
-				r.Fail(lib.Failure{Kind: "oracle", Key: "os/listing-not-exact", What: "ReadDir of a real directory lost, duplicated or altered entries",
-					Input: c16Case{N: n, Server: "os"}, Expected: n, Actual: map[string]any{"returned": len(fis), "err": fmt.Sprint(err)}})
-			}
 			var is []string
 			for _, i := range idx {
 				is = append(is, strconv.Itoa(i))
@@ -369,41 +1396,82 @@ func checkC16(c *lib.Ctx) {
 			if len(is) > 0 {
 				s = strings.Join(is, ",")
 			}
-			olines = append(olines, fmt.Sprintf("c16.oslist %s %d -", c16OSCfg, n))
-			rounds := n/128 + 1
-			if n%128 != 0 || n == 0 {
-				rounds = n/128 + 1
-				if n%128 != 0 {
-					rounds = n/128 + 2
+			olines = append(olines, fmt.Sprintf("c16.oslist %s %d -", c16OSCfg, cs.N))
+			if ec == "hang" {
+				oimpl = append(oimpl, "nofuel")
+			} else {
+				if ec != "nil" {
+					ec = "other"
 				}
-			}
-			ec := "nil"
-			if err != nil {
-				ec = "other"
-			}
-			oimpl = append(oimpl, fmt.Sprintf("ok %d %s %s", rounds, ec, s))
-			os.RemoveAll(d)
-		}
-		// the os model lists in directory order; the implementation's order is the file system's: compare as sorted sets
-		model, err := c.Model(olines)
-		if err != nil {
-			r.Fail(lib.Failure{Kind: "tie", Key: "c16/model-driver", What: err.Error()})
-		} else {
-			for i := range olines {
-				mf := strings.Fields(model[i])
-				if len(mf) == 4 {
-					parts := strings.Split(mf[3], ",")
-					if mf[3] != "-" {
-						sort.Slice(parts, func(a, b int) bool { x, _ := strconv.Atoi(parts[a]); y, _ := strconv.Atoi(parts[b]); return x < y })
-						mf[3] = strings.Join(parts, ",")
-					}
-				}
-				imf := strings.Fields(oimpl[i])
-				// round trips of the os-backed listing are not observable through the client API: compare error class and entry set
-				if len(mf) != 4 || mf[0] != imf[0] || mf[2] != imf[2] || mf[3] != imf[3] {
-					r.Fail(lib.Failure{Kind: "correspondence", Key: "c16/c16.oslist", What: "model and implementation differ", Input: olines[i], Expected: model[i], Actual: oimpl[i]})
-				}
+				oimpl = append(oimpl, fmt.Sprintf("ok 0 %s %s", ec, s))
 			}
 		}
+		os.RemoveAll(dir)
+	}
+	if oskipped > 0 {
+		r.Note("model comparison skipped for %d os-backed cases the driver op cannot express (cancelled context, Walk, Glob, parallel listings); their direct oracle ran", oskipped)
+	}
+	model, err := c.Model(olines)
+	if err != nil {
+		r.Fail(lib.Failure{Kind: "tie", Key: "c16/model-driver", What: err.Error()})
+		return
+	}
+	for i := range olines {
+		mf := strings.Fields(model[i])
+		if len(mf) == 4 && mf[3] != "-" {
+			parts := strings.Split(mf[3], ",")
+			sort.Slice(parts, func(a, b int) bool { x, _ := strconv.Atoi(parts[a]); y, _ := strconv.Atoi(parts[b]); return x < y })
+			mf[3] = strings.Join(parts, ",")
+		}
+		imf := strings.Fields(oimpl[i])
+		// round trips of the os-backed listing are not observable through the client API: compare error class and entry set
+		if len(mf) != 4 || len(imf) != 4 || mf[0] != imf[0] || mf[2] != imf[2] || mf[3] != imf[3] {
+			r.Fail(lib.Failure{Kind: "correspondence", Key: "c16/c16.oslist", What: "model and implementation differ", Input: olines[i], Expected: c16Short(model[i]), Actual: c16Short(oimpl[i])})
+		}
+	}
+}
+
+func c16Short(s string) string {
+	if len(s) > 400 {
+		return s[:400] + fmt.Sprintf("… (%d bytes)", len(s))
+	}
+	return s
+}
+
+func c16SkipWhy(cs c16Case) string {
+	if cs.Par > 1 && (cs.api() == "readdir" || cs.api() == "ctx") {
+		return "parallel"
+	}
+	return cs.api()
+}
+
+func c16HistOpts(r *lib.Result, cs c16Case) {
+	s := cs.Server
+	if cs.Alloc {
+		r.Hist(s + "-allocator/on")
+	} else {
+		r.Hist(s + "-allocator/off")
+	}
+	r.Hist(fmt.Sprintf("%s-max-tx-packet/%d", s, cs.MaxTx))
+	rel := cs.Rel
+	if rel == "" {
+		rel = "absolute-no-option"
+	}
+	r.Hist(s + "-start-dir+path/" + rel)
+	r.Hist(s + "-api/" + cs.api())
+	if s == "rs" {
+		n := cs.Names
+		if n == "" {
+			n = "e<i>"
+		}
+		r.Hist("rs-names/" + n)
+		a := cs.Attrs
+		if a == "" {
+			a = "plain"
+		}
+		r.Hist("rs-attrs/" + a)
+	}
+	if cs.Par > 1 {
+		r.Hist(s + "-parallel-listings")
 	}
 }
